@@ -78,14 +78,14 @@ theorem held_free_succeeds_seq (c : Cfg) (ok : GeomOk16 c.geom) (m : Mem) (inv :
 
 /-- sequentially, at the public interface: a free of a held block (all frames allocated, whole
     huge frames for huge orders) succeeds, in every reachable state -/
-theorem held_free_succeeds_upper (c : Cfg) (ok : CfgOk c) (H : Nat → Prop) (m : Mem) (inv : UpperInv0 c H m) (frame : Nat)
+theorem held_free_succeeds_upper (c : Cfg) (ok : CfgOk c) (H : Nat → Nat) (m : Mem) (inv : UpperInv0 c H m) (frame : Nat)
     (r : Request) (hcls : r.cls < 8) (hloc : r.locOk c) (hv : C08.ArgsValid c frame r) (hheld : PutAllowed c m frame r.order) :
     Runs m (put c frame r) (fun res m' => res = .ok () ∧ UpperInv0 c H m') :=
   ((upper_put_spec ok inv frame r hcls hloc hv).1 hheld).mono (fun _ _ h => ⟨h.1, h.2.1⟩)
 
 /-- sequentially no call of any history panics (see C09) -/
 theorem seq_history_never_panics (c : Cfg) (ok : CfgOk c) (calls : List Call) (hvalid : ∀ x ∈ calls, x.valid c)
-    (H : Nat → Prop) (m : Mem) (inv : UpperInv0 c H m) :
+    (H : Nat → Nat) (m : Mem) (inv : UpperInv0 c H m) :
     Runs m (runCalls c calls) (fun _ m' => ∃ H', UpperInv0 c H' m') := calls_safe ok calls hvalid H m inv
 
 
